@@ -103,7 +103,11 @@ type deferResume struct {
 }
 
 type loopSnap struct {
-	decr []Term
+	decr   []Term
+	heap   map[string]Term // heap at the loop head of the iteration being executed (spec: head(e))
+	worlds []WorldState
+	counts map[string]int // call counts at the loop head (spec: head(ncalls("f")))
+	syms   map[string]Term
 }
 
 func (f *Frame) clone() *Frame {
